@@ -24,6 +24,8 @@ CONSTANTS NStores,        \* number of stores
           MaxTotal,       \* frames in the world <= MaxTotal
           NLsets,         \* label sets used: the first NLsets of LsetU
           NChunkLists,    \* chunk lists used: the first NChunkLists of ChunkListU
+          NNonSeries,     \* non-series frames used: 0 none, 1 hints, 2 hints and warnings
+          Eager,          \* retrieval strategies tried: subset of BOOLEAN (TRUE = eager)
           RespBatch,      \* response batch sizes tried
           CaseStores, CasePerStore, CaseTotal,   \* bounds of the worlds handed to the harness (within the checked ones)
           CaseStride      \* every CaseStride-th of them is written
@@ -48,16 +50,22 @@ cZ == Aggr(0, 10, 7, 6, 0)   \* shares its sum sub-chunk with cY
 ChunkListU == << <<cA>>, <<cX>>, <<>>, <<cY>>, <<cX, cZ>>, <<cC, cA>>, <<cB>>, <<cZ>> >>
 ChunkLists == { ChunkListU[i] : i \in 1..NChunkLists }
 
-FrameU == { [ls |-> l, chunks |-> c] : l \in Lsets, c \in ChunkLists }
+(* hints / warning messages a store may put anywhere into its stream *)
+NonSeriesU == (IF NNonSeries >= 1 THEN { [k |-> "h", ls |-> <<>>, chunks |-> <<>>] } ELSE {})
+              \cup (IF NNonSeries >= 2 THEN { [k |-> "w", ls |-> <<>>, chunks |-> <<>>] } ELSE {})
+FrameU == { [ls |-> l, chunks |-> c] : l \in Lsets, c \in ChunkLists } \cup NonSeriesU
 
-FramesSorted(frs) == \A i \in 1..(Len(frs) - 1) : LsCmp(frs[i].ls, frs[i + 1].ls) <= 0
+FramesSorted(all) == LET frs == SeriesOf(all) IN \A i \in 1..(Len(frs) - 1) : LsCmp(frs[i].ls, frs[i + 1].ls) <= 0
 (* the label-sorted frame sequences of length n a store may stream *)
 SortedSeqs(n) == { s \in [1..n -> FrameU] : FramesSorted(s) }
 
 (* a store that strips sends its series stripped and sorted by the stripped labels *)
+(* (non-series frames keep their positions)                                          *)
 AsSent(base, strips, without) ==
     IF strips /\ without # <<>>
-      THEN SortFrames([i \in DOMAIN base |-> [ls |-> Strip(base[i].ls, Rng(without)), chunks |-> base[i].chunks]])
+      THEN LET ser == SortFrames([i \in DOMAIN SeriesOf(base) |-> StripFrame(SeriesOf(base)[i], Rng(without))])
+               rank(i) == Len(SeriesOf(SubSeq(base, 1, i)))
+           IN [i \in DOMAIN base |-> IF IsSeries(base[i]) THEN ser[rank(i)] ELSE base[i]]
       ELSE base
 World(bases, strips, without) ==
     [stores |-> [i \in DOMAIN strips |-> [frames |-> AsSent(bases[i], strips[i], without), strips |-> strips[i]]],
@@ -107,31 +115,37 @@ AddFrame(i, fr) ==
     /\ \A j \in (i + 1)..NStores : bases[j] = <<>>
     /\ Len(bases[i]) < MaxPerStore /\ TotalLen(bases) < MaxTotal
     /\ i > 1 => Len(bases[i]) < Len(bases[i - 1])
-    /\ bases[i] # <<>> => LsCmp(bases[i][Len(bases[i])].ls, fr.ls) <= 0
+    /\ FramesSorted(Append(bases[i], fr))
     /\ bases' = [bases EXCEPT ![i] = Append(@, fr)]
     /\ UNCHANGED <<phase, w, streams, rb, pos, dbuf, out, pend, msgs, done>>
 
-Start(so, b) ==
+Start(so, b, eager) ==
     /\ phase = "build" /\ bases[1] # <<>>
     /\ phase' = "run"
     /\ w' = World(bases, so[1], so[2])
-    /\ streams' = [i \in 1..NStores |-> StreamOf(w'.stores[i], Without(w'))]
+    /\ streams' = [i \in 1..NStores |-> IF eager THEN EagerStreamOf(w'.stores[i], Without(w')) ELSE StreamOf(w'.stores[i], Without(w'))]
     /\ rb' = b /\ pos' = [i \in 1..NStores |-> 1]
     /\ UNCHANGED <<bases, dbuf, out, pend, msgs, done>>
 
-(* srv.Send(series) through batchableServer *)
+(* srv.Send(response) through batchableServer *)
 Send(s) ==
     /\ out' = Append(out, s)
-    /\ IF rb <= 1 THEN msgs' = Append(msgs, <<s>>) /\ pend' = pend
+    /\ IF ~IsSeries(s) THEN msgs' = (IF pend = <<>> THEN msgs ELSE Append(msgs, pend)) \o <<<<s>>>> /\ pend' = <<>>
+       ELSE IF rb <= 1 THEN msgs' = Append(msgs, <<s>>) /\ pend' = pend
        ELSE IF Len(pend) + 1 >= rb THEN msgs' = Append(msgs, Append(pend, s)) /\ pend' = <<>>
        ELSE pend' = Append(pend, s) /\ msgs' = msgs
 
-(* one respHeap.Next(): the loser tree yields a minimal head, the deduplicator absorbs it *)
+(* less() of the loser tree: a non-series response is smaller than any series *)
+HeadLeq(a, b) == IF ~IsSeries(a) THEN TRUE ELSE IF ~IsSeries(b) THEN FALSE ELSE LsCmp(a.ls, b.ls) <= 0
+
+(* one respHeap.Next(): the loser tree yields a minimal head, the deduplicator absorbs it: a    *)
+(* non-series response is passed on at once and does NOT end the group of equal label sets      *)
 TreeNext(i) ==
     /\ phase = "run" /\ ~done /\ i \in Live
-    /\ \A j \in Live : LsCmp(HeadOf(i).ls, HeadOf(j).ls) <= 0
+    /\ \A j \in Live : HeadLeq(HeadOf(i), HeadOf(j))
     /\ pos' = [pos EXCEPT ![i] = @ + 1]
-    /\ IF dbuf = <<>> \/ dbuf[1].ls = HeadOf(i).ls
+    /\ IF ~IsSeries(HeadOf(i)) THEN Send(HeadOf(i)) /\ UNCHANGED dbuf
+       ELSE IF dbuf = <<>> \/ dbuf[1].ls = HeadOf(i).ls
          THEN dbuf' = Append(dbuf, HeadOf(i)) /\ UNCHANGED <<out, pend, msgs>>
          ELSE Send(Chain(dbuf)) /\ dbuf' = <<HeadOf(i)>>
     /\ UNCHANGED <<phase, bases, w, streams, rb, done>>
@@ -152,7 +166,7 @@ Flush ==
 Finished == done /\ UNCHANGED vars      \* the request has returned
 Next == \/ /\ phase = "build"
            /\ \/ \E i \in 1..NStores, fr \in FrameU : AddFrame(i, fr)
-              \/ \E so \in StripOpts(NStores), b \in RespBatch : Start(so, b)
+              \/ \E so \in StripOpts(NStores), b \in RespBatch, eager \in Eager : Start(so, b, eager)
         \/ /\ phase = "run"
            /\ \/ \E i \in 1..NStores : TreeNext(i)
               \/ DedupDrain \/ Flush \/ Finished
@@ -160,21 +174,26 @@ Spec == Init /\ [][Next]_vars
 
 (* ---------------- C03 ---------------- *)
 Received == FlattenMsgs(msgs)
+OutSeries == SeriesOf(out)
 (* the statement, on the final response *)
-C03_Response == (phase = "run" /\ done) => C03Clauses(w, Received) = {}
+C03_Response == (phase = "run" /\ done) => C03Clauses(w, SeriesOf(Received)) = {}
 (* inductive core of "each label set once, sorted": what has been emitted is strictly sorted  *)
 (* and lies strictly before everything still buffered or to come                                *)
 C03_EmittedIsFinal == phase = "run" =>
-    /\ \A i \in 1..(Len(out) - 1) : LsCmp(out[i].ls, out[i + 1].ls) < 0
-    /\ out # <<>> => /\ \A i \in Live : LsCmp(out[Len(out)].ls, HeadOf(i).ls) < 0
-                     /\ dbuf # <<>> => LsCmp(out[Len(out)].ls, dbuf[1].ls) < 0
-(* batching neither loses, reorders nor oversizes *)
+    /\ \A i \in 1..(Len(OutSeries) - 1) : LsCmp(OutSeries[i].ls, OutSeries[i + 1].ls) < 0
+    /\ OutSeries # <<>> => /\ \A i \in Live : IsSeries(HeadOf(i)) => LsCmp(OutSeries[Len(OutSeries)].ls, HeadOf(i).ls) < 0
+                           /\ dbuf # <<>> => LsCmp(OutSeries[Len(OutSeries)].ls, dbuf[1].ls) < 0
+(* batching neither loses, reorders nor oversizes; a non-series response travels alone *)
 C03_Batching == phase = "run" =>
                 /\ Received \o pend = out
                 /\ \A m \in DOMAIN msgs : Len(msgs[m]) <= (IF rb <= 1 THEN 1 ELSE rb)
+                /\ \A m \in DOMAIN msgs : (\E x \in DOMAIN msgs[m] : ~IsSeries(msgs[m][x])) => Len(msgs[m]) = 1
                 /\ done => msgs = Batches(out, rb)
 (* tie resolution in the tree has no influence: the run equals the functional description *)
-C03_TieIndependent == done => SameResult(Received, AlgoOutput(w))
+C03_TieIndependent == done => SameResult(SeriesOf(Received), AlgoOutput(w))
+(* hints and warnings of the stores are carried to the client *)
+NonSeriesCount(seq) == Len(seq) - Len(SeriesOf(seq))
+C03_NonSeriesCarried == done => NonSeriesCount(Received) = TotalLen([i \in 1..NStores |-> SelectSeq(streams[i], LAMBDA g : ~IsSeries(g))])
 (* Termination: every step increases Progress (no cycles) and, deadlock checking being on, every *)
 (* state that is not finished has a successor.                                                  *)
 SumPos == LET f[n \in 0..Len(pos)] == IF n = 0 THEN 0 ELSE f[n - 1] + pos[n] IN f[Len(pos)]
